@@ -116,7 +116,16 @@ def main(argv):
         shutil.rmtree(scratch, ignore_errors=True)
 
 
+def out_root():
+    """Evidence and replay files are only kept under /verif for runs against /repo itself;
+    runs against a scratch copy (VF_REPO=...) write to /tmp/vf-alt so they never pass for evidence."""
+    if os.path.realpath(os.environ.get("VF_REPO", "/repo")) == "/repo":
+        return HERE
+    return "/tmp/vf-alt"
+
+
 def drive(mod, prop, tier, seed, scratch, replay, t0):
+    OUT = out_root()
     n = 1 if replay else mod.shards(tier)
     timeout = mod.timeout(tier)
     workers = min(n, int(os.environ.get("VF_JOBS", "16")))
@@ -209,7 +218,7 @@ def drive(mod, prop, tier, seed, scratch, replay, t0):
     # replay files
     lines = []
     for key, v in new_viol:
-        rdir = os.path.join(HERE, "replays", prop)
+        rdir = os.path.join(OUT, "replays", prop)
         os.makedirs(rdir, exist_ok=True)
         rpath = os.path.join(rdir, safe_name(key) + ".json")
         with open(rpath, "w") as f:
@@ -220,8 +229,8 @@ def drive(mod, prop, tier, seed, scratch, replay, t0):
         lines.append(f"  key={key} count={v['count']} :: {v['msg'][:300]}")
 
     if not replay:
-        os.makedirs(os.path.join(HERE, "evidence"), exist_ok=True)
-        with open(os.path.join(HERE, "evidence", f"{prop}.json"), "w") as f:
+        os.makedirs(os.path.join(OUT, "evidence"), exist_ok=True)
+        with open(os.path.join(OUT, "evidence", f"{prop}.json"), "w") as f:
             json.dump(evidence, f, indent=1, sort_keys=True)
 
     for key, entry, v in known_seen:
